@@ -425,7 +425,7 @@ fn child(args: &Args) -> ! {
     let wal_path = args.str("wal", "/dev/null");
     let res_path = args.str("childout", "/dev/null");
     let tmp = args.str("tmpdir", "/tmp");
-    std::panic::set_hook(Box::new(|_| {}));
+    vcore::quiet_panics();
     let handle = std::thread::Builder::new()
         .stack_size(2 * 1024 * 1024)
         .spawn(move || {
